@@ -33,6 +33,9 @@ type Reader struct {
 	Terminal int // 0 EOF, 1 injected error, 2 data-with-EOF on the final read
 
 	Policy Policy
+	// FirstChunks: the k-th Read that delivers data delivers at most FirstChunks[k] bytes (0 = no limit)
+	FirstChunks []int
+	dataReads   int
 
 	// X, when set, makes every call a choice point with the deviations of Mode.
 	X    Chooser
@@ -100,6 +103,12 @@ func (r *Reader) Read(p []byte) (int, error) {
 	if r.Policy.MaxChunk > 0 && n > int64(r.Policy.MaxChunk) {
 		n = int64(r.Policy.MaxChunk)
 	}
+	if r.dataReads < len(r.FirstChunks) {
+		if c := int64(r.FirstChunks[r.dataReads]); c > 0 && n > c {
+			n = c
+		}
+	}
+	r.dataReads++
 	withEOF := false
 	if r.X != nil {
 		switch r.Mode {
